@@ -275,11 +275,16 @@ pub mod sampled {
         pub s: u32,
         /// Occ sampling rate, 1..=2n
         pub k: u32,
+        /// the sampled array is sampled again (SuffixArray::sample called on the sampled array) at each of
+        /// these rates in turn; every stage must agree with the full array at every index
+        #[serde(default)]
+        pub resample: Vec<u32>,
     }
 
     pub fn check(c: &Case) -> R {
         let text: &[u8] = &c.text;
         ensure!(sa::in_domain(text), "harness: text {} is outside the domain", show(text));
+        ensure!(c.resample.iter().all(|&r| r >= 1), "harness: re-sampling rate 0");
         let n = text.len();
         ensure!(c.s >= 1 && c.k >= 1 && c.s as usize <= n + 2 && c.k as usize <= 2 * n, "harness: rates s={} k={} outside 1..=n+2 / 1..=2n for n={}", c.s, c.k, n);
         let syms = sa::alphabet_for(text, &c.extra, c.with_sentinel);
@@ -306,11 +311,29 @@ pub mod sampled {
                     show(text), show(&syms), c.s, c.k, what, i, got, full[i], show_vec(full)
                 );
             }
+            let mut cur = sampled;
+            let mut rates = vec![c.s];
+            for &r in &c.resample {
+                cur = cur.sample(text, &b, &ls, &occ, r as usize);
+                rates.push(r);
+                ensure!(SuffixArray::len(&cur) == n, "sampled: text {} sampled at rates {:?} in turn, k={}: len()={} expected {}", show(text), rates, c.k, SuffixArray::len(&cur), n);
+                for i in 0..n {
+                    let got = cur.get(i);
+                    ensure!(
+                        got == Some(full[i]),
+                        "sampled: text {} alphabet {} k={} (full array from {}), sampled at rates {:?} in turn (each from the array before): get({})={:?} but the full array has {}; sa={}",
+                        show(text), show(&syms), c.k, what, rates, i, got, full[i], show_vec(full)
+                    );
+                }
+            }
         }
         let sentinels = text.iter().filter(|&&x| x == text[n - 1]).count();
         let mut pass = Pass::new(n >= 4 && c.s > 1);
         pass.add_if(c.s > 1, "sampling s>1");
         pass.add_if(c.s == 1, "s=1");
+        pass.add_if(!c.resample.is_empty(), "sampled array sampled again");
+        pass.add_if(c.resample.first().map_or(false, |&r| r > c.s && r % c.s == 0), "re-sampled at a multiple of the first rate");
+        pass.add_if(c.resample.first().map_or(false, |&r| r < c.s), "re-sampled at a smaller rate");
         pass.add_if(c.s >= 3, "s>=3");
         pass.add_if(c.s as usize > n, "s>n");
         pass.add_if(sentinels > 1, "multi-sentinel");
@@ -328,8 +351,8 @@ pub mod sampled {
             Tier::Quick => vec![(6, 19), (6, 120), (3, 400)],
             Tier::Thorough => vec![(6, 19), (6, 120), (4, 400), (1, 2500)],
         };
-        (textgen::text(&lens), textgen::extra(), any::<bool>(), textgen::sa_rate(), textgen::occ_rate())
-            .prop_map(|(text, extra, with_sentinel, s, k)| {
+        (textgen::text(&lens), textgen::extra(), any::<bool>(), textgen::sa_rate(), textgen::occ_rate(), prop_oneof![3 => Just(Vec::new()), 1 => proptest::collection::vec((any::<bool>(), 0u8..=7), 1..=2)])
+            .prop_map(|(text, extra, with_sentinel, s, k, rs)| {
                 let n = text.len();
                 // long texts: keep n*s*k (walk length times counting cost) bounded
                 let (mut s, mut k) = (s.resolve(n, n + 2), k.resolve(n, 2 * n));
@@ -337,7 +360,18 @@ pub mod sampled {
                     s = s.min(64);
                     k = k.min(256);
                 }
-                Case { text: B(text), extra: B(extra), with_sentinel, s, k }
+                let mut prev = s;
+                let resample: Vec<u32> = if n > 800 {
+                    Vec::new()
+                } else {
+                    rs.iter()
+                        .map(|&(multiple, v)| {
+                            prev = if multiple { prev.saturating_mul(2 + v as u32 % 3).min(4 * n as u32 + 8) } else { 1 + v as u32 };
+                            prev
+                        })
+                        .collect()
+                };
+                Case { text: B(text), extra: B(extra), with_sentinel, s, k, resample }
             })
             .boxed()
     }
@@ -366,7 +400,9 @@ pub mod exh {
         for s in 1..=(n as u32 + 2) {
             for &k in &ks {
                 for with_sentinel in [true, false] {
-                    sampled::check(&sampled::Case { text: c.text.clone(), extra: B(vec![]), with_sentinel, s, k })?;
+                    // re-sampling: doubled rate, tripled rate, and back to 1
+                    let resample = match (s + k) % 4 { 0 => vec![2 * s], 1 => vec![3 * s, 1], _ => Vec::new() };
+                    sampled::check(&sampled::Case { text: c.text.clone(), extra: B(vec![]), with_sentinel, s, k, resample })?;
                 }
             }
         }
